@@ -54,53 +54,176 @@ type c01Beh struct {
 		Ids bool `json:"ids"`
 	} `json:"cfg"`
 	Steps []c01Step `json:"steps"`
+	Univ  *c01Univ  `json:"univ"`
 }
 
-// universe: block bytes as a function of the model block number
-func c01Data(h int) []byte {
-	if h == 1 {
-		return []byte{} // the empty block
-	}
-	n := 1 + (h*37)%200
+// ---- the block universe ----------------------------------------------------------------------
+// Its SHAPE (which CIDs exist, which entry each addresses, length class, hash function, multihash
+// framing) is dictated by spec/Blockstore: in replay mode it arrives as the first input record
+// (CidTable/MhTable printed by TLC); in record mode the harness uses c01OwnUniverse and logs the
+// measured table with every Reset, where TraceBlockstore compares it with the spec's MhTable.
+// The harness only chooses the byte VALUES (a fixed pseudo-random function of name and position).
+type c01MhRow struct {
+	Mh    c01Cid `json:"mh"` // ["sha",h] / ["id",k]
+	Fn    string `json:"fn"` // "sha2-256" / "sha2-512" / "identity"
+	Size  int    `json:"size"`
+	Dlen  int    `json:"dlen"`
+	Mhlen int    `json:"mhlen"`
+}
+type c01CidRow struct {
+	C    c01Cid `json:"c"`
+	Mh   c01Cid `json:"mh"`
+	IsId bool   `json:"isid"`
+}
+type c01Univ struct {
+	Cids []c01CidRow `json:"cids"`
+	Mhs  []c01MhRow  `json:"mhs"`
+}
+
+type c01Entry struct {
+	row  c01MhRow
+	data []byte
+	mh   mh.Multihash
+}
+type c01World struct {
+	cids    []c01CidRow
+	entries map[c01Cid]*c01Entry // by model multihash name
+	byMh    map[string]string    // real multihash bytes -> "sha:h" / "id:k"
+	real    map[c01Cid]cid.Cid
+	rowOf   map[c01Cid]c01CidRow
+}
+
+func c01Payload(kind string, idx, n int) []byte {
 	b := make([]byte, n)
+	salt := 131
+	if kind == "id" {
+		salt = 89
+	}
 	for i := range b {
-		b[i] = byte(h*131 + i*7)
+		b[i] = byte(idx*salt + i*7 + (i>>8)*13 + len(kind))
 	}
 	return b
 }
-func c01IdData(k int) []byte {
-	if k == 0 {
-		return []byte{}
+
+// c01Build makes the real blocks/CIDs of a universe; a non-empty error means the harness and the
+// spec disagree about the universe itself (a defect of the check, never of the code under test).
+func c01Build(u c01Univ) (*c01World, error) {
+	w := &c01World{entries: map[c01Cid]*c01Entry{}, byMh: map[string]string{}, real: map[c01Cid]cid.Cid{}, rowOf: map[c01Cid]c01CidRow{}}
+	for _, r := range u.Mhs {
+		code := map[string]uint64{"sha2-256": mh.SHA2_256, "sha2-512": mh.SHA2_512, "identity": mh.IDENTITY}[r.Fn]
+		if r.Fn != "identity" && code == 0 {
+			return nil, fmt.Errorf("unknown hash function %q", r.Fn)
+		}
+		if (r.Fn == "identity") != (r.Mh.Alias == "id") {
+			return nil, fmt.Errorf("entry %v with hash function %s", r.Mh, r.Fn)
+		}
+		data := c01Payload(r.Mh.Alias, r.Mh.H, r.Size)
+		m, err := mh.Sum(data, code, -1)
+		if err != nil {
+			return nil, fmt.Errorf("multihash of %v: %v", r.Mh, err)
+		}
+		dm, err := mh.Decode(m)
+		if err != nil {
+			return nil, fmt.Errorf("multihash of %v: %v", r.Mh, err)
+		}
+		if len(m) != r.Mhlen || dm.Length != r.Dlen {
+			return nil, fmt.Errorf("entry %v: real multihash has %d bytes, digest %d; the spec says %d, %d", r.Mh, len(m), dm.Length, r.Mhlen, r.Dlen)
+		}
+		name := c01ModelMhName(r.Mh)
+		if other, dup := w.byMh[string(m)]; dup {
+			return nil, fmt.Errorf("entries %s and %s are the same block", other, name)
+		}
+		w.byMh[string(m)] = name
+		w.entries[r.Mh] = &c01Entry{row: r, data: data, mh: m}
 	}
-	return []byte(fmt.Sprintf("identity-%d", k))
-}
-func c01Mh(alias string, h int) mh.Multihash {
-	if alias == "id" {
-		m, _ := mh.Sum(c01IdData(h), mh.IDENTITY, -1)
-		return m
+	for _, r := range u.Cids {
+		e := w.entries[r.Mh]
+		if e == nil {
+			return nil, fmt.Errorf("CID %v addresses unknown entry %v", r.C, r.Mh)
+		}
+		var k cid.Cid
+		switch r.C.Alias {
+		case "v0":
+			if e.row.Fn != "sha2-256" {
+				return nil, fmt.Errorf("CIDv0 of a %s block", e.row.Fn)
+			}
+			k = cid.NewCidV0(e.mh)
+		case "v1", "id":
+			k = cid.NewCidV1(cid.Raw, e.mh)
+		case "pb", "idpb":
+			k = cid.NewCidV1(cid.DagProtobuf, e.mh)
+		default:
+			return nil, fmt.Errorf("alias %q", r.C.Alias)
+		}
+		// the CID must survive its own binary and text forms (what a caller would hand in)
+		k2, err := cid.Cast(k.Bytes())
+		if err != nil || !k2.Equals(k) {
+			return nil, fmt.Errorf("CID %v does not round-trip: %v", r.C, err)
+		}
+		w.real[r.C] = k
+		w.rowOf[r.C] = r
+		w.cids = append(w.cids, r)
 	}
-	m, _ := mh.Sum(c01Data(h), mh.SHA2_256, -1)
-	return m
+	sort.Slice(w.cids, func(i, j int) bool {
+		a, b := w.cids[i].C, w.cids[j].C
+		if a.H != b.H {
+			return a.H < b.H
+		}
+		return a.Alias < b.Alias
+	})
+	return w, nil
 }
-func c01MkCid(c c01Cid) cid.Cid {
-	switch c.Alias {
-	case "v0":
-		return cid.NewCidV0(c01Mh("sha", c.H))
-	case "v1":
-		return cid.NewCidV1(cid.Raw, c01Mh("sha", c.H))
-	case "id":
-		return cid.NewCidV1(cid.Raw, c01Mh("id", c.H))
+
+// c01OwnUniverse is the harness' copy of the universe of spec/Blockstore (record mode only; checked
+// against the spec by TraceBlockstore!TReset).  dlen/mhlen are filled in from the real multihashes.
+func c01OwnUniverse(nb, nid int, wide bool) c01Univ {
+	bs := []int{0, 128, 1, 127, 16384, 129, 255, 256}
+	is := []int{0, 128, 1, 127, 16384, 129, 16383, 300}
+	var u c01Univ
+	for h := 1; h <= nb; h++ {
+		n := 200 + h
+		if h <= len(bs) {
+			n = bs[h-1]
+		}
+		fn, code := "sha2-256", uint64(mh.SHA2_256)
+		if h%3 == 0 {
+			fn, code = "sha2-512", mh.SHA2_512
+		}
+		m, _ := mh.Sum(c01Payload("sha", h, n), code, -1)
+		dm, _ := mh.Decode(m)
+		name := c01Cid{"sha", h}
+		u.Mhs = append(u.Mhs, c01MhRow{Mh: name, Fn: fn, Size: n, Dlen: dm.Length, Mhlen: len(m)})
+		al := []string{"v1", "pb"}
+		if fn == "sha2-256" {
+			al = []string{"v0", "v1"}
+			if wide {
+				al = append(al, "pb")
+			}
+		}
+		for _, a := range al {
+			u.Cids = append(u.Cids, c01CidRow{C: c01Cid{a, h}, Mh: name})
+		}
 	}
-	panic("alias " + c.Alias)
-}
-func c01Bytes(c c01Cid) []byte {
-	if c.Alias == "id" {
-		return c01IdData(c.H)
+	for k := 0; k < nid; k++ {
+		n := 200 + k
+		if k < len(is) {
+			n = is[k]
+		}
+		m, _ := mh.Sum(c01Payload("id", k, n), mh.IDENTITY, -1)
+		dm, _ := mh.Decode(m)
+		name := c01Cid{"id", k}
+		u.Mhs = append(u.Mhs, c01MhRow{Mh: name, Fn: "identity", Size: n, Dlen: dm.Length, Mhlen: len(m)})
+		u.Cids = append(u.Cids, c01CidRow{C: name, Mh: name, IsId: true})
+		if wide {
+			u.Cids = append(u.Cids, c01CidRow{C: c01Cid{"idpb", k}, Mh: name, IsId: true})
+		}
 	}
-	return c01Data(c.H)
+	return u
 }
-func c01Block(c c01Cid) blocks.Block {
-	b, err := blocks.NewBlockWithCid(c01Bytes(c), c01MkCid(c))
+
+func (w *c01World) bytesOf(c c01Cid) []byte { return w.entries[w.rowOf[c].Mh].data }
+func (w *c01World) block(c c01Cid) blocks.Block {
+	b, err := blocks.NewBlockWithCid(w.bytesOf(c), w.real[c])
 	if err != nil {
 		panic(err)
 	}
@@ -108,14 +231,13 @@ func c01Block(c c01Cid) blocks.Block {
 }
 
 type c01Sys struct {
-	d   ds.Batching
-	bs  Blockstore
-	np  bool
-	nb  int
-	nid int
+	d  ds.Batching
+	bs Blockstore
+	np bool
+	w  *c01World
 }
 
-func c01New(wt, np, ids bool, nb, nid int) *c01Sys {
+func c01New(wt, np, ids bool, w *c01World) *c01Sys {
 	d := dssync.MutexWrap(ds.NewMapDatastore())
 	opts := []Option{WriteThrough(wt)}
 	if np {
@@ -125,37 +247,19 @@ func c01New(wt, np, ids bool, nb, nid int) *c01Sys {
 	if ids {
 		bs = NewIdStore(bs)
 	}
-	return &c01Sys{d: d, bs: bs, np: np, nb: nb, nid: nid}
-}
-
-func (s *c01Sys) cids() []c01Cid {
-	var r []c01Cid
-	for h := 1; h <= s.nb; h++ {
-		r = append(r, c01Cid{"v0", h}, c01Cid{"v1", h})
-	}
-	for k := 0; k < s.nid; k++ {
-		r = append(r, c01Cid{"id", k})
-	}
-	return r
+	return &c01Sys{d: d, bs: bs, np: np, w: w}
 }
 
 // mhName maps a real multihash back to the model name ("sha:h" / "id:k") or "?".
 func (s *c01Sys) mhName(m mh.Multihash) string {
-	for h := 1; h <= s.nb; h++ {
-		if bytes.Equal(m, c01Mh("sha", h)) {
-			return fmt.Sprintf("sha:%d", h)
-		}
-	}
-	for k := 0; k < s.nid; k++ {
-		if bytes.Equal(m, c01Mh("id", k)) {
-			return fmt.Sprintf("id:%d", k)
-		}
+	if n, ok := s.w.byMh[string(m)]; ok {
+		return n
 	}
 	return "?" + m.B58String()
 }
 
 func c01ModelMhName(c c01Cid) string {
-	if c.Alias == "id" {
+	if c.Alias == "id" || c.Alias == "idpb" {
 		return fmt.Sprintf("id:%d", c.H)
 	}
 	return fmt.Sprintf("sha:%d", c.H)
@@ -192,72 +296,71 @@ func (s *c01Sys) rawKeys() (names []string, prefixOK bool) {
 	return
 }
 
-// observe runs one read op and projects its result.
-func (s *c01Sys) read(op string, c c01Cid) (found bool, detail string) {
+// read runs one read op and projects its result: found, the OBSERVED length of what was delivered
+// (-1: nothing / not applicable for Has) and a non-empty detail for anything the projection cannot
+// express (wrong byte values, wrong CID on the block, unexpected error, ...).
+func (s *c01Sys) read(op string, c c01Cid) (found bool, size int, detail string) {
 	ctx := context.Background()
-	k := c01MkCid(c)
-	want := c01Bytes(c)
+	k := s.w.real[c]
+	want := s.w.bytesOf(c)
+	differs := func(got []byte) string {
+		if bytes.Equal(got, want) {
+			return ""
+		}
+		return fmt.Sprintf("wrong-bytes(len=%d, entry has %d)", len(got), len(want))
+	}
 	switch op {
 	case "Has":
 		ok, err := s.bs.Has(ctx, k)
 		if err != nil {
-			return false, "err:" + err.Error()
+			return false, -1, "err:" + err.Error()
 		}
-		return ok, ""
+		return ok, -1, ""
 	case "Get":
 		b, err := s.bs.Get(ctx, k)
 		if err != nil {
 			if ipld.IsNotFound(err) {
-				return false, ""
+				return false, -1, ""
 			}
-			return false, "err:" + err.Error()
+			return false, -1, "err:" + err.Error()
 		}
-		if !bytes.Equal(b.RawData(), want) {
-			return true, "wrong-bytes"
+		if d := differs(b.RawData()); d != "" {
+			return true, len(b.RawData()), d
 		}
 		if !b.Cid().Equals(k) {
-			return true, "wrong-cid"
+			return true, len(b.RawData()), "wrong-cid"
 		}
-		return true, ""
+		return true, len(b.RawData()), ""
 	case "GetSize":
 		n, err := s.bs.GetSize(ctx, k)
 		if err != nil {
 			if ipld.IsNotFound(err) {
-				if n != -1 {
-					return false, "size-not-minus-1"
-				}
-				return false, ""
+				return false, n, ""
 			}
-			return false, "err:" + err.Error()
+			return false, n, "err:" + err.Error()
 		}
-		if n != len(want) {
-			return true, fmt.Sprintf("wrong-size:%d", n)
-		}
-		return true, ""
+		return true, n, ""
 	case "View":
 		v, ok := s.bs.(Viewer)
 		if !ok {
 			return s.read("Get", c)
 		}
 		called := false
-		good := false
-		err := v.View(ctx, k, func(b []byte) error { called = true; good = bytes.Equal(b, want); return nil })
+		n, d := -1, ""
+		err := v.View(ctx, k, func(b []byte) error { called = true; n = len(b); d = differs(b); return nil })
 		if err != nil {
 			if ipld.IsNotFound(err) {
 				if called {
-					return false, "callback-on-notfound"
+					return false, n, "callback-on-notfound"
 				}
-				return false, ""
+				return false, -1, ""
 			}
-			return false, "err:" + err.Error()
+			return false, n, "err:" + err.Error()
 		}
 		if !called {
-			return true, "callback-not-called"
+			return true, -1, "callback-not-called"
 		}
-		if !good {
-			return true, "wrong-bytes"
-		}
-		return true, ""
+		return true, n, d
 	}
 	panic(op)
 }
@@ -299,17 +402,17 @@ func (s *c01Sys) apply(st c01Step) string {
 	ctx := context.Background()
 	switch st.Op {
 	case "Put":
-		if err := s.bs.Put(ctx, c01Block(st.C)); err != nil {
+		if err := s.bs.Put(ctx, s.w.block(st.C)); err != nil {
 			return "err:" + err.Error()
 		}
 	case "Delete":
-		if err := s.bs.DeleteBlock(ctx, c01MkCid(st.C)); err != nil {
+		if err := s.bs.DeleteBlock(ctx, s.w.real[st.C]); err != nil {
 			return "err:" + err.Error()
 		}
 	case "PutMany":
 		var bl []blocks.Block
 		for _, c := range st.Cs {
-			bl = append(bl, c01Block(c))
+			bl = append(bl, s.w.block(c))
 		}
 		if err := s.bs.PutMany(ctx, bl); err != nil {
 			return "err:" + err.Error()
@@ -321,6 +424,8 @@ func (s *c01Sys) apply(st c01Step) string {
 }
 
 // battery compares every observable with the model store; returns "" or a description.
+// Expected per CID (spec: ReadRes): found iff its entry is in the store (or identity CID under the
+// idstore); found => the entry's bytes, whose length is the spec's Size; absent => -1.
 func (s *c01Sys) battery(store []c01Cid, ids bool) string {
 	in := map[string]bool{}
 	var want []string
@@ -330,15 +435,23 @@ func (s *c01Sys) battery(store []c01Cid, ids bool) string {
 		want = append(want, n)
 	}
 	sort.Strings(want)
-	for _, c := range s.cids() {
-		exp := in[c01ModelMhName(c)] || (ids && c.Alias == "id")
+	for _, r := range s.w.cids {
+		c := r.C
+		exp := in[c01ModelMhName(r.Mh)] || (ids && r.IsId)
+		expSize := -1
+		if exp {
+			expSize = s.w.entries[r.Mh].row.Size
+		}
 		for _, op := range []string{"Has", "Get", "GetSize", "View"} {
-			found, detail := s.read(op, c)
+			found, size, detail := s.read(op, c)
 			if detail != "" {
 				return fmt.Sprintf("%s(%v): %s", op, c, detail)
 			}
 			if found != exp {
 				return fmt.Sprintf("%s(%v): found=%v expected=%v", op, c, found, exp)
+			}
+			if op != "Has" && size != expSize {
+				return fmt.Sprintf("%s(%v): size=%d expected=%d", op, c, size, expSize)
 			}
 		}
 	}
@@ -372,14 +485,26 @@ func TestVerifC01(t *testing.T) {
 }
 
 func c01Replay(t *testing.T) {
-	nb, nid := vEnvInt("C01_NB", 3), vEnvInt("C01_NID", 2)
 	n, bad := 0, 0
+	var w *c01World
 	for i, raw := range vIn() {
 		var b c01Beh
 		if err := json.Unmarshal(raw, &b); err != nil {
 			t.Fatalf("behaviour %d: %v", i, err)
 		}
-		s := c01New(b.Cfg.Wt, b.Cfg.Np, b.Cfg.Ids, nb, nid)
+		if b.Univ != nil { // the universe record printed by the generator precedes the behaviours
+			var err error
+			if w, err = c01Build(*b.Univ); err != nil {
+				t.Fatalf("universe (input %d): %v", i, err)
+			}
+			n++
+			vEmit(M{"i": i, "ok": true, "universe": len(w.cids)})
+			continue
+		}
+		if w == nil {
+			t.Fatalf("behaviour %d before any universe record", i)
+		}
+		s := c01New(b.Cfg.Wt, b.Cfg.Np, b.Cfg.Ids, w)
 		res := M{"i": i, "ok": true}
 		if d := s.battery(nil, b.Cfg.Ids); d != "" {
 			res = M{"i": i, "ok": false, "step": 0, "what": "initial: " + d}
@@ -397,6 +522,9 @@ func c01Replay(t *testing.T) {
 		}
 		if res["ok"] == false {
 			bad++
+			if bad > 25 { // a broken tree fails everywhere: report the first 25, count the rest
+				res = M{"i": i, "ok": true, "suppressed": true}
+			}
 		}
 		n++
 		vEmit(res)
@@ -411,17 +539,18 @@ func c01Record(t *testing.T) {
 	if !vQuick() {
 		runs, length = 40, 400
 	}
-	nb, nid := 12, 3
+	u := c01OwnUniverse(12, 8, true) // = NB, NID, Wide of TraceBlockstore.cfg
+	w, err := c01Build(u)
+	if err != nil {
+		t.Fatalf("universe: %v", err)
+	}
 	for r := 0; r < runs; r++ {
 		wt, np, ids := rng.Intn(2) == 0, rng.Intn(2) == 0, rng.Intn(2) == 0
-		s := c01New(wt, np, ids, nb, nid)
-		vEmit(M{"ev": "Reset", "wt": wt, "np": np, "ids": ids})
-		cs := s.cids()
-		mhOf := func(c c01Cid) []any {
-			if c.Alias == "id" {
-				return []any{"id", c.H}
-			}
-			return []any{"sha", c.H}
+		s := c01New(wt, np, ids, w)
+		vEmit(M{"ev": "Reset", "wt": wt, "np": np, "ids": ids, "mhs": u.Mhs})
+		var cs []c01Cid
+		for _, row := range w.cids {
+			cs = append(cs, row.C)
 		}
 		for i := 0; i < length; i++ {
 			c := cs[rng.Intn(len(cs))]
@@ -445,12 +574,14 @@ func c01Record(t *testing.T) {
 				vEmit(M{"ev": "Delete", "c": c, "err": d})
 			case op < 9:
 				name := []string{"Has", "Get", "GetSize", "View"}[rng.Intn(4)]
-				found, detail := s.read(name, c)
+				found, size, detail := s.read(name, c)
 				m := []any{"none", 0}
 				if found {
-					m = mhOf(c) // bytes/size/cid checked by the projection (detail == "")
+					// which entry's bytes were delivered: byte values checked by the projection
+					// (detail == ""), their length is logged and checked by the spec
+					m = []any{w.rowOf[c].Mh.Alias, w.rowOf[c].Mh.H}
 				}
-				vEmit(M{"ev": "Read", "api": name, "c": c, "found": found, "mh": m, "detail": detail})
+				vEmit(M{"ev": "Read", "api": name, "c": c, "found": found, "mh": m, "size": size, "detail": detail})
 			default:
 				keys, detail := s.allKeys()
 				raw, pok := s.rawKeys()
